@@ -658,6 +658,9 @@ class Predicate(metaclass=abc.ABCMeta):
                 {s.pop(): p for p, s in items.items()}
             )
 
+        def __reduce__(self):
+            return self.__class__, tuple(self._items.values())  # the mapping proxy itself can't be pickled
+
         @classmethod
         def merge(
             cls,
